@@ -19,7 +19,8 @@
      RecvTake      `for response := range b.responses`
      RecvRead      readFull(header) / decode header / correlation check / readFull(body)
                    -> response.packets <- buf   or   dead = err; response.errors <- err
-     RecvTimeout   readFull fails with the per-read deadline (Net.ReadTimeout)
+     RecvTimeout   readFull(header) fails with the per-read deadline (Net.ReadTimeout)
+     RecvStall     readFull(body) fails with the deadline (header and correlation id were fine)
      RecvDead      `if dead != nil { response.errors <- dead }`
      RecvExit      b.responses closed and drained -> close(b.done)
      CloseStart/CloseLock/CloseFinish   Broker.Close: lock, close(b.responses), <-b.done,
@@ -43,7 +44,12 @@ CONSTANTS NCallers,    \* callers are 1..NCallers
 Callers == 1..NCallers
 None == 0                 \* b.lock is free
 CloserId == NCallers + 1  \* b.lock held by Broker.Close
-FaultKinds == {"wrongid", "nested", "ooo", "trunc", "oversize", "close"}
+\* wrongid/nested/ooo: well-framed frames with a correlation id that is not the oldest outstanding one;
+\* bodystall: intact header, fewer body bytes than announced, connection stays open and the peer goes on
+\* answering after the client's read timeout; runt: length field <= 4 (no room for a body; shorter than a
+\* header); oversize: length > MaxResponseSize; close: abrupt close;
+\* shortbody: well-framed frame whose body cannot be decoded - only that call fails, NOT a connection fault
+FaultKinds == {"wrongid", "nested", "ooo", "bodystall", "runt", "oversize", "close", "shortbody"}
 Kinds == {"ok"} \cup FaultKinds
 
 VARIABLES max,        \* Net.MaxOpenRequests of this connection
@@ -61,7 +67,7 @@ VARIABLES max,        \* Net.MaxOpenRequests of this connection
           chClosed, rdone, connOpen, closer,   \* Close protocol
           srvEnded, srvClosed, srvFaulted,  \* server state
           faultAt, timeoutAt, nans,                 \* server script: which answer is faulty, number of answers so far
-          burst,      \* Conducted: the previous step spawned a goroutine
+          burst,      \* Conducted: "spawn" / "srv" while a burst of call starts / of server frames is going on
           sent,       \* history: frames the server sent
           done,       \* history: finished calls
           errSeen,    \* some call has returned an error
@@ -86,7 +92,7 @@ Init ==
   /\ faultAt \in (IF MaxFaults = 0 THEN {0} ELSE 0..(NCallers * Calls))   \* 0: no faulty answer
   /\ timeoutAt \in (IF EmitCases THEN 0..(NCallers * Calls + 1) ELSE {0})    \* scripted: N+1 = never
   /\ EmitCases => (IF faultAt # 0 THEN 1 ELSE 0) + (IF timeoutAt # NCallers * Calls + 1 THEN 1 ELSE 0) <= MaxFaults
-  /\ nans = 0 /\ burst = FALSE
+  /\ nans = 0 /\ burst = "none"
   /\ srvEnded = FALSE /\ srvClosed = FALSE /\ srvFaulted = FALSE
   /\ sent = {} /\ done = {} /\ errSeen = FALSE
   /\ hist = <<>>
@@ -167,11 +173,13 @@ RecvTake ==
 
 \* header read + decode + correlation check + body read, then the rendezvous with the caller
 RecvRead ==
-  /\ recv # <<>> /\ ~dead /\ srvOut # <<>>
+  /\ recv # <<>> /\ ~dead /\ srvOut # <<>> /\ ~Head(srvOut).stall
   /\ LET p == recv[1]  f == Head(srvOut) IN
        /\ srvOut' = Tail(srvOut)
        /\ IF f.ok /\ f.hdr = p.corr
-            THEN Finish(p.c, TRUE, f.content) /\ UNCHANGED dead
+            THEN /\ UNCHANGED dead
+                 /\ IF f.short THEN Fail(p.c)      \* versionedDecode fails in sendAndReceive: this call only
+                               ELSE Finish(p.c, TRUE, f.content)
             ELSE Fail(p.c) /\ dead' = TRUE
   /\ recv' = <<>>
   /\ UNCHANGED <<max, quota, willClose, ncall, lock, corr, req, unans, respQ, chClosed, rdone, connOpen,
@@ -184,6 +192,14 @@ RecvTimeout ==
   /\ FinishP(recv[1].c, FALSE, Tag(recv[1].c), <<HE("timeout", recv[1].c, "-")>>)
   /\ dead' = TRUE /\ recv' = <<>>
   /\ UNCHANGED <<max, quota, willClose, ncall, lock, corr, req, unans, respQ, srvOut, chClosed, rdone,
+                 connOpen, closer, srvEnded, srvClosed, srvFaulted, sent>>
+
+\* header and correlation id fine, the body read runs into the deadline
+RecvStall ==
+  /\ recv # <<>> /\ ~dead /\ srvOut # <<>> /\ Head(srvOut).stall
+  /\ FinishP(recv[1].c, FALSE, Tag(recv[1].c), <<HE("timeout", recv[1].c, "-")>>)
+  /\ dead' = TRUE /\ recv' = <<>> /\ srvOut' = Tail(srvOut)
+  /\ UNCHANGED <<max, quota, willClose, ncall, lock, corr, req, unans, respQ, chClosed, rdone,
                  connOpen, closer, srvEnded, srvClosed, srvFaulted, sent>>
 
 RecvDead ==
@@ -224,21 +240,24 @@ CloseFinish ==
 
 -----------------------------------------------------------------------------
 (* the peer *)
-Frame(ok, hdr, content) == [ok |-> ok, hdr |-> hdr, content |-> content]
+Frame(ok, hdr, content, short, stall) == [ok |-> ok, hdr |-> hdr, content |-> content, short |-> short, stall |-> stall]
 Server(kind) ==
   /\ unans # <<>> /\ connOpen /\ ~srvEnded /\ ~srvClosed
   /\ (kind # "ok") <=> (nans + 1 = faultAt)
   /\ kind = "ooo" => Len(unans) >= 2
+  \* after a stalled body the peer sends nothing until the client has given up on it (else the bytes
+  \* would be taken for the missing body - undetectable by any client)
+  /\ dead \/ \A k \in DOMAIN srvOut : ~srvOut[k].stall
   /\ LET r == IF kind = "ooo" THEN unans[2] ELSE Head(unans)
          hdr == IF kind \in {"wrongid", "nested"} THEN r.corr + 100 ELSE r.corr
-         wellFormed == kind \in {"ok", "wrongid", "nested", "ooo"}
+         wellFormed == kind \in {"ok", "wrongid", "nested", "ooo", "shortbody"}
          match == kind = "ok" /\ ~srvFaulted
-     IN /\ srvOut' = Append(srvOut, Frame(wellFormed, hdr, r.tag))
+     IN /\ srvOut' = Append(srvOut, Frame(wellFormed, hdr, r.tag, kind = "shortbody", kind = "bodystall"))
         /\ sent' = sent \cup {[tag |-> r.tag, hdr |-> hdr, ok |-> wellFormed,
                                match |-> match, oldest |-> Head(unans).corr]}
         /\ unans' = IF kind = "ooo" THEN <<Head(unans)>> \o Tail(Tail(unans)) ELSE Tail(unans)
-  /\ srvFaulted' = (srvFaulted \/ kind # "ok")
-  /\ srvEnded' = (srvEnded \/ kind \in {"trunc", "oversize", "close"})
+  /\ srvFaulted' = (srvFaulted \/ kind \notin {"ok", "shortbody"})
+  /\ srvEnded' = (srvEnded \/ kind \in {"oversize", "close"})
   /\ srvClosed' = (srvClosed \/ kind = "close")
   /\ H("srv", 0, kind)
   /\ UNCHANGED <<max, quota, willClose, pc, ncall, lock, corr, req, respQ, recv, dead, chClosed, rdone,
@@ -251,28 +270,31 @@ ClientStepEnabled ==
                          \/ pc[c] = "locked"
                          \/ (pc[c] = "wrote" /\ (Len(respQ) < max - 1 \/ (respQ = <<>> /\ recv = <<>> /\ ~rdone)))
   \/ (recv = <<>> /\ respQ # <<>>)
-  \/ (recv # <<>> /\ (dead \/ srvOut # <<>>))
+  \/ (recv # <<>> /\ (dead \/ (srvOut # <<>> /\ ~Head(srvOut).stall)))
   \/ (chClosed /\ ~rdone /\ respQ = <<>> /\ recv = <<>>)
   \/ (closer = "want" /\ lock = None)
   \/ (closer = "waiting" /\ rdone)
-EnvOK(spawn) == ~Conducted \/ ~ClientStepEnabled \/ (spawn /\ burst)
+EnvOK(b) == ~Conducted \/ ~ClientStepEnabled \/ (b # "none" /\ burst = b)
+Burst(b) == burst' = IF Conducted THEN b ELSE "none"
 LowestStartable(c) == \A d \in Callers : (pc[d] = "idle" /\ ncall[d] < quota[d]) => c <= d
 Script == UNCHANGED <<faultAt, timeoutAt>>
 
-Int(A) == A /\ burst' = FALSE /\ Script /\ UNCHANGED nans      \* a step of the client's own goroutines
+Int(A) == A /\ burst' = "none" /\ Script /\ UNCHANGED nans      \* a step of the client's own goroutines
 EStart(c) == /\ Start(c) /\ (Conducted => LowestStartable(c))
-             /\ EnvOK(TRUE) /\ burst' = Conducted /\ Script /\ UNCHANGED nans
+             /\ EnvOK("spawn") /\ Burst("spawn") /\ Script /\ UNCHANGED nans
 \* (conducted: Close is started at quiescent points only - against outstanding and blocked calls; a
 \* spawn burst mixing Close and calls is a race no conductor can steer, simulation covers those)
-ECloseStart == CloseStart /\ EnvOK(FALSE) /\ burst' = FALSE /\ Script /\ UNCHANGED nans
-EServer(k) == Server(k) /\ EnvOK(FALSE) /\ burst' = FALSE /\ Script /\ nans' = nans + 1
-ETimeout == RecvTimeout /\ EnvOK(FALSE) /\ burst' = FALSE /\ Script /\ UNCHANGED nans
+ECloseStart == CloseStart /\ EnvOK("none") /\ burst' = "none" /\ Script /\ UNCHANGED nans
+\* (the peer may pipeline several frames before the client reacts)
+EServer(k) == Server(k) /\ EnvOK("srv") /\ Burst("srv") /\ Script /\ nans' = nans + 1
+ETimeout == RecvTimeout /\ EnvOK("none") /\ burst' = "none" /\ Script /\ UNCHANGED nans
+EStall == RecvStall /\ EnvOK("none") /\ burst' = "none" /\ Script /\ UNCHANGED nans
 
 Next ==
   \/ \E c \in Callers : EStart(c)
   \/ ECloseStart
   \/ \E k \in Kinds : EServer(k)
-  \/ ETimeout
+  \/ ETimeout \/ EStall
   \/ \E c \in Callers : Int(Lock(c)) \/ Int(NotConn(c)) \/ Int(Write(c)) \/ Int(WriteFail(c)) \/ Int(Enqueue(c))
   \/ Int(RecvTake) \/ Int(RecvRead) \/ Int(RecvDead) \/ Int(RecvExit)
   \/ Int(CloseLock) \/ Int(CloseFinish)
@@ -285,7 +307,7 @@ Fair ==
   /\ \A c \in Callers : /\ WF_vars(Int(Lock(c)))
                          /\ WF_vars(Int(NotConn(c)) \/ Int(Write(c)) \/ Int(WriteFail(c)))
                          /\ WF_vars(Int(Enqueue(c)))
-  /\ WF_vars(Int(RecvTake)) /\ WF_vars(Int(RecvRead) \/ ETimeout) /\ WF_vars(Int(RecvDead)) /\ WF_vars(Int(RecvExit))
+  /\ WF_vars(Int(RecvTake)) /\ WF_vars(Int(RecvRead) \/ ETimeout \/ EStall) /\ WF_vars(Int(RecvDead)) /\ WF_vars(Int(RecvExit))
   /\ WF_vars(Int(CloseLock)) /\ WF_vars(Int(CloseFinish))
 FairSpec == Spec /\ Fair
 
